@@ -16,7 +16,7 @@ HUB_RULE = ('seeded histories (VERIF_SEED -> splitmix64) of 40-120 operations ov
             'A case counts as non-trivial/agreeing when the model reproduces the implementation\'s observable state after every operation.')
 
 
-def hub_suite(qn=150, tn=1200, ops_q=60, ops_t=120, hostile=True):
+def hub_suite(qn=150, tn=600, ops_q=60, ops_t=120, hostile=True):
     s = [{'name': 'hub', 'quick': '-n %d -ops %d' % (qn, ops_q), 'thorough': '-n %d -ops %d' % (tn, ops_t), 'shards': {'quick': 2, 'thorough': 16}}]
     # boundary-directed: prefix-related token ids on one chain, many batches, out-of-order executions
     s.append({'name': 'hub', 'quick': '-n %d -ops %d -directed' % (qn // 2, ops_q + 20), 'thorough': '-n %d -ops %d -directed' % (tn // 2, ops_t), 'shards': {'quick': 1, 'thorough': 8}})
